@@ -1370,7 +1370,8 @@ def expanding_window(coordinates, center, sizes):
     # work on the ignored coordinates.
     coordinates = check_coordinates(coordinates)[:2]
     shape = coordinates[0].shape
-    center = np.atleast_2d(center)
+    # Like the coordinates, only the easting and northing of the center are used
+    center = np.atleast_2d(center)[:, :2]
     # pykdtree doesn't support query_ball_point yet and we need that
     tree = kdtree(coordinates, use_pykdtree=False)
     indices = []
